@@ -231,6 +231,23 @@ func (it *goBadgerDBIt) Rewind() bool {
 
 // Seek 查找
 func (it *goBadgerDBIt) Seek(key []byte) bool {
+	// clamp the target into [start, end), as the leveldb and memdb range iterators do
+	if it.reverse {
+		if it.end != nil && bytes.Compare(key, it.end) >= 0 {
+			return it.Rewind()
+		}
+		if len(key) == 0 {
+			// no key is <= the empty key, but badger rewinds on an empty target:
+			// go to the smallest possible key and step below it
+			it.Iterator.Seek([]byte{0})
+			if it.Iterator.Valid() {
+				it.Iterator.Next()
+			}
+			return it.Valid()
+		}
+	} else if bytes.Compare(key, it.start) < 0 {
+		key = it.start
+	}
 	it.Iterator.Seek(key)
 	return it.Valid()
 }
